@@ -18,6 +18,7 @@ RULE = ("pairs of time-sorted internally non-overlapping event lists on a ms gri
 ASSUMPTIONS = ["the edges of list one are millisecond aligned: an Event cannot START between milliseconds, so no implementation could "
                "return exact pieces when a cut point (always a list-one edge) lies between milliseconds (C09 states this granularity "
                "explicitly); list-two events may END between milliseconds - a third of the cases have such ends, 1-999 µs past the grid",
+               "a zero-length list-two event exactly on an edge of a list-one event may be kept or dropped (the statement does not say whether an end instant is 'covered'); in a gap it must be kept, strictly inside a list-one event it must be dropped",
                "domain: each list sorted by timestamp as given, pairwise non-overlapping (closed ends may touch), durations >= 0"]
 
 
@@ -75,6 +76,22 @@ def post_unol(old, oldkw, result, exc, after, afterkw):
             break
         if sum(t - s for s, t in pieces[i]) != sum(t - s for s, t in have):
             v.append(("unol-piece-duplicated", f"source={iv(e)} pieces={pieces[i][:6]} {ctx}"))
+            break
+    # zero-length list-two events: one that lies in a gap of list one is plainly "not covered" and must come back, one
+    # strictly inside a list-one event is covered and must not; exactly on an edge of a list-one event the statement
+    # fixes nothing (closed or open ends are the same time), so either answer is accepted there
+    ivs_one = [iv(e) for e in one]
+    zero_out = Counter((s, data) for (s, t, data, _id) in rest if s == t)
+    zero_in = Counter((iv(e)[0], exact(e.data)) for e in two if iv(e)[0] == iv(e)[1])
+    for (pnt, data), n_in in zero_in.items():
+        inside = any(a < pnt < b for a, b in ivs_one)
+        on_edge = any(pnt in (a, b) for a, b in ivs_one)
+        n_out = zero_out.get((pnt, data), 0)
+        if not inside and not on_edge and n_out < n_in:
+            v.append(("unol-uncovered-zero-length-event-lost", f"at={pnt} data={data} in={n_in} out={n_out} {ctx}"))
+            break
+        if inside and n_out and not any(iv(e)[0] <= pnt <= iv(e)[1] and iv(e)[1] > iv(e)[0] and exact(e.data) == data for e in two):
+            v.append(("unol-covered-zero-length-event-kept", f"at={pnt} data={data} {ctx}"))
             break
     out_iv = [iv(r) for r in result]
     if not pairwise_disjoint(out_iv):
